@@ -237,6 +237,8 @@ def make_leaf(ctx, k, ens):
         return node
     if k == "enum":
         nsym = rng.choice([1, 2, 3, 5])
+        if rng.chance(1, 25):
+            nsym = 130          # indexes 64..129 need a two-byte zig-zag varint
         syms = ["S%d" % i for i in range(nsym)]
         hdr, full = named_header(ctx, "En", ens)
         js = dict(hdr, type="enum", symbols=syms)
@@ -244,6 +246,8 @@ def make_leaf(ctx, k, ens):
             js["default"] = rng.choice(syms)
         def g(r, d):
             i = r.below(nsym)
+            if nsym > 64 and r.chance(1, 2):
+                i = r.choice([62, 63, 64, 65, 127, 128, 129])
             return "(enum %d %s)" % (i, hx(syms[i]))
         node = Node(js, g, "enum", full)
         ctx.defined[full] = node
